@@ -145,3 +145,25 @@ class FieldTables(Contract):
             yield ("%s: tables index-aligned and XML names distinct" % stt.name, len(f) == len(x) and len(set(flat)) == len(flat) and len(set(f)) == len(f))
             yield ("%s: position maps to (x, y), time_step to time" % stt.name,
                    all((isinstance(e, tuple)) == (n == "position") for e, n in zip(x, f)) and all((e == "time") == (n == "time_step") for e, n in zip(x, f) if not isinstance(e, tuple)))
+
+
+# ------------------------------------------------------------------------------ every (vehicle model, vehicle type, supported cost function)
+
+for _model in ("PM", "ST", "KS", "MB", "KST"):
+
+    @register
+    class EveryTypeAndCost(SolutionRoundTrip):
+        case = "exhaustive: vehicle model %s x every vehicle type x every supported cost function" % _model
+        model = _model
+        in_schema = _model != "KST"
+        describe = "a cooperative solution with one planning-problem solution per (vehicle type, cost function) pair of this model: every pair comes back, in order"
+
+        def solution(self, F):
+            pairs = [(t, c) for t in VehicleType for c in SupportedCostFunctions[self.model].value]
+            ppss = []
+            for i, (t, c) in enumerate(pairs):
+                states = [mk_state(F, self.model, step, "s%d_" % step) for step in (5, 6)] if i == 0 else [
+                    STATE_CLASS[self.model](**{n: (step if n == "time_step" else np.array([1.0 * i, 2.0]) if n == "position" else 0.25 * (k + 1))
+                                               for k, n in enumerate(StateFields[self.model].value)}) for step in (5, 6)]
+                ppss.append(F.new(PlanningProblemSolution, 1000 - i, VehicleModel[self.model], t, c, F.new(Trajectory, 5, states)))
+            return F.new(Solution, ScenarioID(True, "DEU", "Muc", 2, 1, "T", [1, 2]), ppss, datetime.datetime(2024, 5, 6, 7, 8, 9), None, None)
